@@ -69,6 +69,7 @@ func main() {
 	tier := fs.String("tier", "quick", "quick|thorough")
 	nprog := fs.Int("programs", 0, "number of generated programs (0: by tier)")
 	keep := fs.Bool("keep", false, "keep the work directory")
+	fs.BoolVar(&blackShadow, "blackshadow", false, "also write prefix-after-deeper path pairs for black-list masks (a known deviation of the library, see docs/C13.md)")
 	fs.Parse(os.Args[2:])
 	switch os.Args[1] {
 	case "extract":
@@ -161,6 +162,10 @@ func extract(repo string) error {
 	blackAll := nb == 0
 	// reqSub: a required field takes the sub-mask of Field(id) whatever its answer (`fm, _ :=`)
 	reqSub := regexp.MustCompile(`fm\s*,\s*_\s*:=\s*p\._fieldmask\.Field\(`).MatchString(wf)
+	zw, err := zeroWriterRows()
+	if err != nil {
+		return err
+	}
 	fmt.Printf(`import ThriftVerif.Gen.Mask
 /- GENERATED by harness/cmd/c13 extract (shape of the field-mask templates of the tree under test:
    templates.FieldWriteList / FieldWriteSet pre-count loop, StructLikeWriteField zero-value else-branch); do not edit. -/
@@ -172,8 +177,10 @@ def headMax : Nat := %d
 /-- generator/golang/thrift.go IsIntType / IsStrType asked for every category a map key can have: (category, IsIntType, IsStrType).
 FieldWriteMap / FieldReadMap query Int(int(k)) for the first, Str(string(k)) for the second, Int(0) for neither. -/
 def keyDispatch : List (String × Bool × Bool) := [%s]
+/-- generator/golang/thrift.go ZeroWriter asked for every category: the TProtocol methods called in the text it returns -/
+def zeroWriters : List (String × List String) := [%s]
 end Generated.C13
-`, l, zeroAll, blackAll, reqSub, hm, keyDispatchRows())
+`, l, zeroAll, blackAll, reqSub, hm, keyDispatchRows(), zw)
 	return nil
 }
 
@@ -228,6 +235,39 @@ func keyDispatchRows() string {
 		rows = append(rows, fmt.Sprintf("(%q, %v, %v)", c.name, golang.IsIntType(t), golang.IsStrType(t)))
 	}
 	return strings.Join(rows, ", ")
+}
+
+// zeroWriterRows calls the real golang.ZeroWriter for every category and lists the TProtocol methods in the emitted text.
+func zeroWriterRows() (rows string, err error) {
+	defer func() {
+		if r := recover(); r != nil {
+			err = fmt.Errorf("ZeroWriter panics: %v", r)
+		}
+	}()
+	i32 := &parser.Type{Name: "i32", Category: parser.Category_I32}
+	cats := []struct {
+		name string
+		t    *parser.Type
+	}{
+		{"bool", &parser.Type{Category: parser.Category_Bool}}, {"byte", &parser.Type{Category: parser.Category_Byte}},
+		{"i16", &parser.Type{Category: parser.Category_I16}}, {"i32", i32}, {"i64", &parser.Type{Category: parser.Category_I64}},
+		{"double", &parser.Type{Category: parser.Category_Double}}, {"string", &parser.Type{Category: parser.Category_String}},
+		{"binary", &parser.Type{Category: parser.Category_Binary}}, {"enum", &parser.Type{Category: parser.Category_Enum}},
+		{"map", &parser.Type{Category: parser.Category_Map, KeyType: i32, ValueType: i32}},
+		{"list", &parser.Type{Category: parser.Category_List, ValueType: i32}}, {"set", &parser.Type{Category: parser.Category_Set, ValueType: i32}},
+		{"struct", &parser.Type{Category: parser.Category_Struct}}, {"union", &parser.Type{Category: parser.Category_Union}},
+		{"exception", &parser.Type{Category: parser.Category_Exception}},
+	}
+	call := regexp.MustCompile(`oprot\.(Write[A-Za-z0-9]+)\(`)
+	var out []string
+	for _, c := range cats {
+		var ms []string
+		for _, m := range call.FindAllStringSubmatch(golang.ZeroWriter(c.t, "oprot", "E"), -1) {
+			ms = append(ms, strconv.Quote(m[1]))
+		}
+		out = append(out, fmt.Sprintf("(%q, [%s])", c.name, strings.Join(ms, ", ")))
+	}
+	return strings.Join(out, ", "), nil
 }
 
 // headMax reads `_MaxFieldIDHead` from fieldmask/storage.go of the repository under test (the last field id kept in the array part
@@ -474,7 +514,7 @@ func run(repo, dir string, seed uint64, nprog, nvalues, nmasks int, keep bool) i
 		c := checks[i]
 		impl := ans
 		if c != nil && c.what == "MW" && strings.HasPrefix(ans, "ok ") {
-			f := strings.Fields(ans)
+			f := strings.Fields(strings.SplitN(ans, " | ", 2)[0])
 			if len(f) == 4 {
 				impl = "ok " + f[2]
 			}
@@ -544,7 +584,7 @@ var stableKeys = map[string]bool{
 	"union-field-white-unselectable":       true, "union-field-black-unfilterable": true,
 	"required-black-submask-applied": true,
 	"read:union-field-white-unselectable": true, "read:union-field-black-unfilterable": true,
-	"zero-required-rejects-union-field": true, "union-element-paths-rejected": true,
+	"zero-required-rejects-union-field": true, "union-element-paths-rejected": true, "compact-protocol-differs": true,
 }
 
 func minI(a, b int) int {
@@ -687,6 +727,12 @@ func verdict(c *check, ans string) verdictT {
 		st = sel{all: true}
 	}
 	rt := &idlgen.RType{Kind: idlgen.RStruct, Sidx: c.sidx}
+	compact := ""
+	if c.what == "MW" {
+		if parts := strings.SplitN(ans, " | ", 2); len(parts) == 2 {
+			ans, compact = parts[0], parts[1]
+		}
+	}
 	f := strings.Fields(ans)
 	switch f[0] {
 	case "maskerr", "maskpanic":
@@ -753,6 +799,23 @@ func verdict(c *check, ans string) verdictT {
 			why := x.explain(st, rt, c.norm, exp, got, true, c.env)
 			return verdictT{key: why, msg: "the bytes decode to something else than the value restricted to the mask (" + why + ")", expected: exp.String(), observed: got.String()}
 		}
+		// the same masked Write through TCompactProtocol, read back by the generated Read (nil mask): the same value as in the binary bytes
+		switch {
+		case compact == "":
+			return verdictT{key: "driver", msg: "no compact-protocol pass in the driver answer", observed: ans}
+		case !strings.HasPrefix(compact, "ok "):
+			return verdictT{key: "compact-protocol-differs", msg: "the masked Write through TCompactProtocol cannot be read back (" + compact + ") although the binary bytes of the same masked Write decode",
+				expected: got.String(), observed: compact}
+		default:
+			cv, err := values.Parse(compact[3:])
+			if err != nil {
+				return verdictT{key: "driver", msg: "unparsable compact dump", observed: compact}
+			}
+			if !refcodec.Equal(cv, got) {
+				return verdictT{key: "compact-protocol-differs", msg: "the masked Write through TCompactProtocol reads back as another value than the binary bytes of the same masked Write",
+					expected: got.String(), observed: cv.String()}
+			}
+		}
 		if c.isNil {
 			// nil mask: exactly the bytes of an unmasked Write (= the reference encoding, C02), map order aside
 			cr, e1 := refcodec.Canon(c.enc)
@@ -798,6 +861,7 @@ func (n *mnode) clone() *mnode {
 		c := &mnode{leaf: m.leaf, starKind: m.starKind}
 		seen[m] = c
 		c.star = cp(m.star)
+		c.shadow = cp(m.shadow)
 		for _, k := range m.kids {
 			kk := *k
 			kk.sub = cp(k.sub)
@@ -835,6 +899,17 @@ func maskCands(n *mnode) []*mnode {
 			}
 			idx++
 		})
+		if at != nil && at.leaf && at.shadow != nil {
+			c := n.clone()
+			idx = 0
+			nodes(c, func(m *mnode) {
+				if idx == target {
+					m.shadow = nil
+				}
+				idx++
+			})
+			out = append(out, c)
+		}
 		if at == nil || at.leaf {
 			continue
 		}
